@@ -352,6 +352,10 @@ def maybe_split(d, rng):
     """ask-twice mode for ops that support it in the driver (trim, reduce, compl, witness; sim sets its own)"""
     if d["op"] in ("trim", "reduce", "compl", "witness") and len(d["A"]["rules"]) >= 2 and rng.random() < 0.2:
         d["split"] = rng.randint(1, len(d["A"]["rules"]) - 1)
+    if d["op"] == "trim" and rng.random() < 0.15:
+        # the optional translation map handed to the trimmers already holds entries (a map reused over several calls)
+        st = sorted(gen.states_of(d["A"]))
+        d["premap"] = sorted(set(q for q in st if rng.random() < 0.5) | ({max(st + [0]) + 1} if rng.random() < 0.3 else set()))
 
 
 def check_C03(tier, seed, res, replay=None):
@@ -430,11 +434,19 @@ def check_C05(tier, seed, res, replay=None):
         return do_replay(res, rd, replay)
     rng = random.Random(seed)
     cases = single_cases(tier, rng, "reduce", 0.5, nrand_quick=12000, nrand_thorough=60000, bigger=True)
+    for k in load_killers("reduce.ndjson"):
+        cases.append(dict(k, op="reduce"))
     nt = lambda c: vlib.ta_nonempty(c["A"]) and len(vlib.ta_states(c["A"])) >= 2
     res.count_cases(cases, nt)
     res.add_samples([c for c in cases if nt(c)][:3])
     run_events(res, rd, "c05", cases)
     laws_arm(res, rd, tier, seed, "reduce")
+    # Layer 2: Reduce as the pipeline it is (simulation -> symmetric restriction -> projection -> collapse -> trimming),
+    # every automaton of the bound, every choice of class representatives
+    model_with_mutants(res, "Reduce.tla", "Reduce.cfg" if tier == "thorough" else "Reduce2.cfg",
+                       ["NonSymmetric", "UseUpSim"] if tier == "thorough" else [], "Reduce")
+    if tier == "thorough":
+        res.add_model(vlib.tlc_model("Reduce.tla", "ReduceNoUnreach.cfg", timeout=3000, heap="16g"))
     import cli_arm
     pick = [c for c in cases if nt(c)]
     rng.shuffle(pick)
@@ -461,11 +473,18 @@ def check_C06(tier, seed, res, replay=None):
         return do_replay(res, rd, replay)
     rng = random.Random(seed)
     cases = single_cases(tier, rng, "compl", 0.05, extra=compl_extra, nrand_quick=1500, nrand_thorough=8000)
+    for k in load_killers("compl.ndjson"):
+        cases.append(dict(k, op="compl"))
     nt = lambda c: vlib.ta_nonempty(c["A"])
     res.count_cases(cases, nt)
     res.add_samples([c for c in cases if nt(c)][:3])
     run_events(res, rd, "c06", cases, timeout_ms=10000)
     laws_arm(res, rd, tier, seed, "compl", per_quick=3000)
+    # Layer 2: the downward complementation as written (macro-states, one rule per choice function), with the identity
+    # preorder Complement() passes and with the downward simulation it is written for; every automaton and alphabet of the bound
+    model_with_mutants(res, "Complement.tla", "Complement3.cfg" if tier == "thorough" else "Complement.cfg",
+                       ["LeafAlways", "NoRuleOnEmptyW", "AllPositions", "KeepMinimal"] if tier == "thorough" else [], "Complement")
+    res.add_model(vlib.tlc_model("Complement.tla", "ComplementPre3.cfg" if tier == "thorough" else "ComplementPre.cfg", timeout=3000, heap="16g"))
     import cli_arm
     pick = [c for c in cases if nt(c) and len(vlib.ta_states(c["A"])) <= 4]
     rng.shuffle(pick)
